@@ -1,4 +1,5 @@
 import Sm9.Proofs.JacobianInst2
+import Sm9.Proofs.SpecGroup
 import Sm9.Proofs.SpecCurve
 /-!
 # C04 — G1 and G2 addition, subtraction and negation implement the curve group law
@@ -87,5 +88,14 @@ open Sm9.SpecCurve in
 theorem g2_add_is_independent_chord_tangent (P Q : G2) (hP : G2.Valid P) (hQ : G2.Valid Q) :
     Spec.ptAdd Spec.opsQ2 (encPt (G2.toAff P)) (encPt (G2.toAff Q)) = encPt (G2.toAff (P.add Q)) := by
   rw [G2.add_correct P Q hP hQ]; exact ptAdd_eq _ _
+
+/-- the same for G1, and negation in both groups: the independent textbook implementation's `ptAdd`/`ptNeg` on the affine
+    coordinates of the operands returns the affine coordinates of the model's result (Proofs/SpecGroup.lean) -/
+theorem add_neg_are_independent_chord_tangent :
+    (∀ (P Q : G1), G1.Valid P → G1.Valid Q →
+      Spec.ptAdd Spec.opsQ (SpecGroup.encPt1 (G1.toAff P)) (SpecGroup.encPt1 (G1.toAff Q)) = SpecGroup.encPt1 (G1.toAff (P.add Q))) ∧
+    (∀ (P Q : G2), G2.Valid P → G2.Valid Q →
+      Spec.ptAdd Spec.opsQ2 (SpecCurve.encPt (G2.toAff P)) (SpecCurve.encPt (G2.toAff Q)) = SpecCurve.encPt (G2.toAff (P.add Q))) :=
+  ⟨fun P Q hP hQ => SpecGroup.g1_add_independent P Q hP hQ, fun P Q hP hQ => SpecGroup.g2_add_independent P Q hP hQ⟩
 
 end Sm9.C04
